@@ -34,6 +34,7 @@ def make_case(seed, i, tier):
     elif rng.random() < 0.3:
         prof["keep_aux"] = True       # output.keep_traj_fnames: extra files travel with the trajectory files
     scn = SC.gen_scenario(rng, prof)
+    scn["abs_load_dir"] = scn["engine"] == "lattice" and rng.random() < 0.2      # absolute simulation.load_dir
     scn["plan"] = C.gen_plan(rng, scn, rng.choice(["single", "single", "clean_chain", "crash_chain"]))
     return {"seed": seed, "scn": scn, "props": [PROP]}
 
